@@ -2,10 +2,10 @@ package sym
 
 import (
 	"bufio"
-	"os"
-	"math/big"
 	"fmt"
 	"io"
+	"math/big"
+	"os"
 	"os/exec"
 	"strconv"
 	"strings"
